@@ -17,6 +17,7 @@ def c10 (ln : Nat) (t : List String) : Option (List String) :=
     let mfl : Option (List Int) := if mf == "-1" then none else some (List.replicate (nOfTok mf) 1)
     some (vOut ln (abfValidate (iOfTok full) (iOfTok mn) (nOfTok nv) mfl).1 false)
   | ["v.cfg", "abfhist", hf, of_, _] => some (vOut ln (abfHistoryValidate (iOfTok hf) (iOfTok of_)).1 false)
+  | ["v.cfg", "metarep", u, _] => some (vOut ln (metaReplicaValidate (iOfTok u)) false)
   | ["v.cfg", "moving", ch, n, _] => some (vOut ln (movingValidate (ch == "1") (iOfTok n)) false)
   | ["v.cfg", "meta", _, _, _] => some (vOut ln .ok false)
   | ["v.cfg", "rejected", k, _] => some (vOut ln .rejected (k == "cv"))
